@@ -589,6 +589,8 @@ def simple_event(ch, pc, topic, visible, depth, alias=None, pred_prob=3):
             aliases[alias] = schema  # the event's own alias may be used too
         env = Env(schema, aliases, chaos=pc.chaos, reserved=pc.all_aliases)
         pred = predicate_term(ch, env, depth)
+        if ch.int(0, 15) == 0:
+            pred = ch.pick([TRUE, FALSE])  # `{True}` / `{False}`: the vacuous truth and the contradiction as event predicates
     return ('ev', topic, alias, pred)
 
 
@@ -670,6 +672,33 @@ def properties(ch, depth=3, chaos=0, wild_time=False, max_width=4, meta=True, sc
     prop = ('prop', md, ('scope', sk, act, term), ('pat', pk, trig, beh, bound))
     info = {'topics': topic_schemas, 'aliases': dict(pc.alias_schema)}
     return prop, info
+
+
+def vacuity_table():
+    """Deterministic family: every scope kind x pattern kind, every present event position either a simple event or a
+    two-way disjunction, and all events of one position carrying the same predicate out of {none, {True}, {False}, {x > 0}}
+    (the vacuous truth and the contradiction as event predicates, alone and on every alternative of a disjunction)."""
+    import itertools
+
+    preds = [None, TRUE, FALSE, binop('>', own('x'), ('lit', 'int', '0'))]
+    names = {'activator': ('p1', 'p2'), 'terminator': ('q1', 'q2'), 'trigger': ('a1', 'a2'), 'behaviour': ('b1', 'b2')}
+    for sk in SCOPES:
+        for pk in PATTERNS:
+            roles = []
+            if sk in ('after', 'after_until'):
+                roles.append('activator')
+            if sk in ('until', 'after_until'):
+                roles.append('terminator')
+            if pk not in ('existence', 'absence'):
+                roles.append('trigger')
+            roles.append('behaviour')
+            options = [(w, pr) for w in (1, 2) for pr in range(len(preds))]
+            for combo in itertools.product(options, repeat=len(roles)):
+                evs = {}
+                for role, (w, pr) in zip(roles, combo):
+                    alts = tuple(('ev', names[role][i], None, preds[pr]) for i in range(w))
+                    evs[role] = alts[0] if w == 1 else ('disj', alts)
+                yield ('prop', (), ('scope', sk, evs.get('activator'), evs.get('terminator')), ('pat', pk, evs.get('trigger'), evs['behaviour'], None))
 
 
 def all_shapes(max_width=4):
